@@ -55,8 +55,9 @@ DropTableS(S)  == { With(S, t, Absent) : t \in Present(S) }
 Addable(r) == (r.gen = "" /\ (r.null \/ r.dflt # "none")) \/ (r.gen = "virtual" /\ r.null)
 AddColumnS(S)  == UNION { { With(S, t, [S[t] EXCEPT !.cols[c] = r]) : c \in Cn \ Cols(S[t]), r \in {x \in ColRec : Addable(x)} } : t \in Present(S) }
 DropColumnS(S) == UNION { { With(S, t, [S[t] EXCEPT !.cols[c] = NoCol]) : c \in Cols(S[t]) } : t \in Present(S) }
-\* NULL -> NOT NULL needs a default for the rows that hold NULL; stored <-> generated is a drop + add and is not an edit
-ModOK(o, r) == /\ o.gen = r.gen
+\* NULL -> NOT NULL needs a default for the rows that hold NULL; regular -> generated is a drop + add and is not an edit; generated -> regular
+\* (the expression is removed, name / type / nullability stay) keeps the values the column showed
+ModOK(o, r) == /\ (o.gen = r.gen \/ (o.gen # "" /\ r.gen = "" /\ r.type = o.type /\ r.null = o.null /\ r.dflt = "none"))   \* ... but a generated column may become a regular one
                /\ ~(o.type = "TEXT" /\ r.type = "INT")           \* stored text is not convertible: the engine itself would refuse the copy
                /\ (o.null /\ ~r.null) => r.dflt # "none"
 ModColumnS(S)  == UNION { UNION { { With(S, t, [S[t] EXCEPT !.cols[c] = r]) : r \in {x \in ColRec \ {S[t].cols[c]} : ModOK(S[t].cols[c], x)} }
@@ -102,8 +103,8 @@ NetOK(S, R) == \A t \in Present(S) \cap Present(R) :
 SameTable(S) == { R \in UNION { UNION { Second(M, t) \ {S} : M \in { X \in AddColumnS(S) : X[t] # S[t] /\ WF(X) } } : t \in Present(S) } : NetOK(S, R) }
 
 \* ---- row semantics of an edit (C05): which column values must survive ----------------------------------
-\* a column survives in table t iff it is stored, present before and after, and has the same type
-Survives(S, R, t) == { c \in Stored(S[t]) \cap Stored(R[t]) : S[t].cols[c].type = R[t].cols[c].type }
+\* a column survives in table t iff it is present before (stored or generated: the values it showed), stored after, and has the same type
+Survives(S, R, t) == { c \in Cols(S[t]) \cap Stored(R[t]) : S[t].cols[c].type = R[t].cols[c].type }
 \* ... except that NULLs of a column that becomes NOT NULL take the default (the only documented rewrite)
 Rewritten(S, R, t) == { c \in Survives(S, R, t) : S[t].cols[c].null /\ ~R[t].cols[c].null }
 
@@ -116,7 +117,9 @@ Seed1 == [Empty EXCEPT !["t1"] = [Absent EXCEPT !.cols = [c \in Cn |-> IF c = "c
 Seed2 == [Seed1 EXCEPT !["t2"] = [Absent EXCEPT !.cols = [c \in Cn |-> IF c = "c" THEN NoCol ELSE [type |-> "INT", null |-> (c = "b"), dflt |-> "none", gen |-> ""]],
                                     !.pk = <<"a">>, !.fks = {[name |-> "f1", col |-> "b", ref |-> "t1", refcol |-> "a", onupd |-> "CASCADE", ondel |-> "NO ACTION"]}]]
 \* Seed2 with a cascading child: a parent rebuilt with foreign keys enforced would silently delete the child's rows
-Seed5 == [Seed2 EXCEPT !["t2"].fks = {[name |-> "f1", col |-> "b", ref |-> "t1", refcol |-> "a", onupd |-> "NO ACTION", ondel |-> "CASCADE"]}]
+\* ... and a VIRTUAL generated column (its values are computed on read; when it becomes a regular column they must be materialised)
+Seed5 == [Seed2 EXCEPT !["t2"].fks = {[name |-> "f1", col |-> "b", ref |-> "t1", refcol |-> "a", onupd |-> "NO ACTION", ondel |-> "CASCADE"]},
+                       !["t2"].cols["c"] = [type |-> "INT", null |-> TRUE, dflt |-> "none", gen |-> "virtual"]]
 Seed3 == [Empty EXCEPT !["t1"] = [Absent EXCEPT !.cols = [c \in Cn |-> IntCol], !.pk = <<"b", "a">>, !.worowid = TRUE,
                                     !.idx = {[name |-> "i1", parts |-> <<Part("a", FALSE), Part("c", TRUE)>>, unique |-> FALSE, where |-> "w1"]},
                                     !.chk = {[name |-> "", expr |-> "e1"], [name |-> "k2", expr |-> "e2"]}]]
